@@ -18,6 +18,13 @@ def handle (op : String) : Option Handler :=
   | "c19.resolve_raw" => some fun j => do
       let files ← strListOf j "files"
       pure (resultJson (resolve (fun l => files.contains l) (← strListOf j "libs") (← strOf j "output")))
+  | "c19.resolve_shlibs" => some fun j => do
+      let files ← strListOf j "files"
+      let names ← strListOf j "la_names"
+      let datas ← strListOf j "la_datas"
+      let tbl := names.zip datas
+      let look := fun (l : List Char) => ((tbl.find? (fun p => p.1 == l)).map (·.2)).getD []
+      pure (resultJson (resolveShlibs (fun l => files.contains l) look (← strListOf j "libs") (← strOf j "output")))
   | "c19.dlname" => some fun j => do
       pure (jopt jstr (extractLibtoolShlib (← strOf j "data")))
   | _ => none
